@@ -211,6 +211,11 @@ class Program:
                 idx += 1
             if name not in self.enums:
                 self.enums[name] = variants
+            elif self.enums[name] != variants:
+                # a second enum with the same last name (lexer::Result vs std Result): kept as an alternative
+                self.enums_alt = getattr(self, "enums_alt", {})
+                if variants not in self.enums_alt.setdefault(name, []):
+                    self.enums_alt[name].append(variants)
         for m in re.finditer(r"\bstruct\s+([A-Za-z_0-9]+)\s*(?:<[^>{(]*>)?\s*\{", text):
             name = m.group(1)
             body = text[m.end():_match_close(text, m.end() - 1)]
@@ -580,6 +585,14 @@ class Executor:
         m = re.match(r"^([A-Za-z_0-9:]+?)(?:::<.*>)?::([A-Z][A-Za-z_0-9]*)(\(.*\))?$", c)
         if m:
             ety = m.group(1).split("::")[-1]
+            if ety in self.prog.enums and m.group(2) not in self.prog.enums[ety]:
+                for alt in getattr(self.prog, "enums_alt", {}).get(ety, []):
+                    if m.group(2) in alt:
+                        idx = alt[m.group(2)]
+                        pay = {}
+                        if m.group(3):
+                            pay[idx] = [self.eval_const(fn, x, st) for x in split_top(m.group(3)[1:-1])]
+                        return Enum(idx, pay, ety)
             if ety in self.prog.enums and m.group(2) in self.prog.enums[ety]:
                 idx = self.prog.enums[ety][m.group(2)]
                 pay = {}
@@ -740,6 +753,11 @@ class Executor:
             if len(segs) >= 2 and segs[-2] in self.prog.enums and segs[-1] in self.prog.enums[segs[-2]]:
                 idx = self.prog.enums[segs[-2]][segs[-1]]
                 return Enum(idx, {idx: args} if has_args else {}, segs[-2])
+            if len(segs) >= 2:
+                for alt in getattr(self.prog, "enums_alt", {}).get(segs[-2], []):
+                    if segs[-1] in alt:
+                        idx = alt[segs[-1]]
+                        return Enum(idx, {idx: args} if has_args else {}, segs[-2])
             if len(segs) == 1:
                 # bare variant of an imported enum (`_1 = Explicit;`, `_2 = Exact(move _3);`): the destination's type names the enum
                 lty = _strip_generics(self.local_type(fn, lhs) or "").split("::")[-1]
